@@ -27,9 +27,10 @@ pub struct ModelRecord { pub id: Vec<u8>, pub seq: Vec<u8>, pub qual: Option<Vec
 #[derive(Clone, Debug)]
 pub struct ModelFile { pub path: &'static str, pub records: Vec<ModelRecord> }
 
-static mut VFS: Vec<ModelFile> = Vec::new();
+struct Vfs { magic: u64, files: Vec<ModelFile> }
+static mut VFS: Vfs = Vfs { magic: 0x0f11_e5f5_beef_0001, files: Vec::new() };
 /// Harness-side: register an in-memory file
-pub fn vfs_set(files: Vec<ModelFile>) { unsafe { VFS = files; } }
+pub fn vfs_set(files: Vec<ModelFile>) { unsafe { VFS.files = files; } }
 /// path under which the harness names a registered file when calling ska (the replay shim maps it to a real temporary file)
 pub fn vfs_path(name: &str) -> String { name.to_string() }
 
@@ -51,7 +52,7 @@ impl FastxReader for ModelReader {
 pub fn parse_fastx_file<P: AsRef<std::path::Path>>(path: P) -> Result<Box<dyn FastxReader>, errors::ParseError> {
     let p = path.as_ref();
     #[allow(static_mut_refs)]
-    let files: &'static Vec<ModelFile> = unsafe { &*std::ptr::addr_of!(VFS) };
+    let files: &'static Vec<ModelFile> = unsafe { &*std::ptr::addr_of!(VFS.files) };
     for f in files.iter() {
         if std::path::Path::new(f.path) == p { return Ok(Box::new(ModelReader { file: f, pos: 0 })); }
     }
